@@ -19,12 +19,21 @@ const semicolon = ";" // From grpcinterceptors.go in onos-lib-go
 // It applies to Set (gnmi) and CompactChanges(admin) and RollbackNetworkChange(admin)
 // TODO replace the following with fine grained RBAC using OpenPolicyAgent Rego in 2021 Q2
 func TemporaryEvaluate(md metautils.NiceMD) error {
+	if md.Get("name") == "" && md.Get("preferred_username") == "" && md.Get("email") == "" && md.Get("groups") == "" {
+		// the request carries no authenticated identity: authorization is not in use
+		return nil
+	}
 	adminGroups := os.Getenv("ADMINGROUPS")
+	admins := strings.FieldsFunc(adminGroups, func(r rune) bool {
+		return r == ',' || r == ';' || r == ' '
+	})
 	var match bool
 	for _, g := range strings.Split(md.Get("groups"), semicolon) {
-		if strings.Contains(adminGroups, g) {
-			match = true
-			break
+		for _, admin := range admins {
+			if g != "" && g == admin {
+				match = true
+				break
+			}
 		}
 	}
 	if !match {
